@@ -18,6 +18,7 @@ Byte strings travel as lower-case hex (two digits per byte), the empty string as
 | `into_lender` | same, through `Lend::new` |
 | `index_of <hex>` | `ok none` / `ok <i>` / `panic` |
 | `contains <hex>` | `ok 0` / `ok 1` / `panic` |
+| `vbyte <value> <tail hex>` | `ok <code hex> <len> <decoded> <rest len>`: `encode_int(value)`, `encode_int_len(value)`, `decode_int(code ++ tail)`; `panic` where `encode_int_len` diverges (`value ≥ 2^63 + UPPER_BOUND_8`, never generated). Stateless. |
 
 Observers before the first `build` reply `bad-op`.
 -/
@@ -82,6 +83,16 @@ def step (r : RSt) (toks : List String) : RSt × String :=
       | .oob => (r, "oob")
     | none => bad
   | ["build"] => ({ r with l := some r.b.build }, "ok")
+  | ["vbyte", v, h] => match parseNat v, parseHex h with
+    | some v, some tail =>
+      if v ≥ 2 ^ 64 then bad else
+      let code := encodeInt v
+      obs r (do
+        let len ← encodeIntLen v
+        let (d, rest) ← decodeInt (code ++ tail)
+        pure (len, d, rest.length))
+        (fun (len, d, rl) => s!"{fmtHex code} {len} {d} {rl}")
+    | _, _ => bad
   | op :: args =>
     match r.l with
     | none => bad
